@@ -109,6 +109,9 @@ def run(ids, tier):
                     entry["outcome"] = f"infra-exit-{rc}"
         finally:
             sh(["git", "-C", REPO, "checkout", "--", "."])
+            # the regenerated Lean files must describe the UNCHANGED tree again
+            sh([PY, "-c", "import sys; sys.path.insert(0, %r); from harness import common as C; "
+                "C.regenerate(%r, C.BuildStatus())" % (os.path.join(V, "tools"), prop)])
             if ev_saved is not None:
                 with open(ev_path, "wb") as fp:
                     fp.write(ev_saved)
